@@ -48,6 +48,11 @@ CLAIMED = {
 PENDING = ["C01","C02","C03","C04","C05","C06","C07","C08","C10","C11","C12","C13","C14","C15","C16","C17","C18","C19","C20"]
 
 def main():
+    import glob
+    for f in sorted(glob.glob(os.path.join(V, "manifest.C*.json"))):
+        pid = os.path.basename(f).split(".")[1]
+        d = json.load(open(f))
+        CLAIMED.setdefault(pid, dict(text=d["text"], note=d["note"], ref=d.get("ref", "§6 " + pid)))
     checks = []
     for pid in sorted(CLAIMED):
         c = CLAIMED[pid]
